@@ -47,7 +47,7 @@ ASSUMPTIONS = [
 ]
 MIN_DISTINCT = {'quick': 500, 'thorough': 8000}
 CASE_TIMEOUT = 120
-N_RANDOM = {'quick': 1200, 'thorough': 20000}
+N_RANDOM = {'quick': 1200, 'thorough': 15000}
 
 
 # ---------------------------------------------------------------------------
